@@ -350,7 +350,12 @@ PROPS = {
         work=[dict(driver="hist", args=["--nops", "60", "--per-file", "6", "--max-iters", "3",
                                         "--compact-bias", "1"], quick=48, thorough=1000),
               dict(driver="crash", args=["--nops", "30", "--threads", "2", "--every", "2", "--torn"],
-                   quick=4, thorough=60)]),
+                   quick=4, thorough=60),
+              # the worker sleeps now and then where it does not hold the mutex: memtable rotations
+              # and deletion passes fall INTO running compactions
+              dict(driver="hist", args=["--nops", "90", "--per-file", "6", "--profile", "fill",
+                                        "--compact-bias", "1", "--jitter", "350"],
+                   quick=32, thorough=800)]),
     "C02": dict(
         design=[(DUR, ["MC_RainDur_small.cfg", "MC_RainDur_comp.cfg"],
                  ["MC_RainDur_small.cfg", "MC_RainDur_big.cfg", "MC_RainDur_comp.cfg"]), REOPEN],
@@ -368,7 +373,10 @@ PROPS = {
               dict(driver="crash", args=["--nops", "25", "--threads", "2", "--early-reopen"],
                    quick=6, thorough=100),
               dict(driver="crash", args=["--nops", "25", "--threads", "2", "--large",
-                                         "--gen2-every", "9"], quick=4, thorough=60)]),
+                                         "--gen2-every", "9"], quick=4, thorough=60),
+              # group commits with a slow leader: followers' acknowledgements vs the leader's append
+              dict(driver="crash", args=["--nops", "40", "--threads", "3", "--jitter", "400"],
+                   quick=4, thorough=80)]),
     "C08": dict(
         design=[(DUR, ["MC_RainDur_small.cfg"], ["MC_RainDur_small.cfg", "MC_RainDur_big.cfg"])],
         switches=[("Bug_WriteErrorSwallowed", DUR, "MC_RainDur_small.cfg", "Durable"),
